@@ -48,7 +48,11 @@ Defs(cm, c) == UNION {DefsOf(cm.entries[i], c) : i \in 1..Len(cm.entries)}
 InCodespace(cm, c) == \E i \in 1..Len(cm.codespace) : Between(c, cm.codespace[i].lo, cm.codespace[i].hi)
 
 (* a look-up:  result = [some |-> FALSE]  or  [some |-> TRUE, bytes |-> dst] *)
+\* `parent` (optional field): the predefined CMap named by `usecmap`.  Identity-H / Identity-V define two-byte codes only
+\* (ISO 32000-1 9.7.5.2), so they add nothing for a code of any other length; what a reader makes of an unmapped
+\* two-byte code under such a parent is left open here (the library answers with the code itself)
+HasIdentityParent(cm) == "parent" \in DOMAIN cm /\ cm.parent \in {"Identity-H", "Identity-V"}
 LookupOK(cm, c, r) ==
-  IF Defs(cm, c) = {} THEN ~r.some                   \* undefined codes - in particular codes outside the codespace - are rejected
+  IF Defs(cm, c) = {} THEN (IF HasIdentityParent(cm) /\ Len(c) = 2 THEN (~r.some \/ r.bytes = c) ELSE ~r.some)   \* undefined codes - in particular codes outside the codespace - are rejected
   ELSE r.some /\ r.bytes \in Defs(cm, c)
 =============================================================================
